@@ -3,7 +3,8 @@
 [lib] path = /repo/src/lib.rs, bench/example/dev-dependency sections dropped, shuttle added.
 /repo's Cargo.toml and Cargo.lock stay untouched; the check always compiles /repo's sources."""
 import os, sys, shutil
-src = open('/repo/Cargo.toml').read().splitlines()
+repo = os.environ.get('REPO_ROOT', '/repo')
+src = open(repo + '/Cargo.toml').read().splitlines()
 out, skip = [], False
 for line in src:
     s = line.strip()
@@ -15,7 +16,7 @@ for line in src:
 out.append('')
 out.append('[lib]')
 out.append('name = "cosmian_cover_crypt"')
-out.append('path = "/repo/src/lib.rs"')
+out.append('path = "' + repo + '/src/lib.rs"')
 out.append('')
 out.append('[lints.rust]')
 out.append("unexpected_cfgs = { level = \"allow\", check-cfg = ['cfg(cosmian_cover_crypt_verif)'] }")
